@@ -326,7 +326,9 @@ def check_debug_note(ctx):
         for attempt in (1, 3, 6):
             for shape, mk, inp in [('single', lambda **kw: StringGrader(answers='a', **kw), 'a'), ('single-wrong', lambda **kw: StringGrader(answers='a', **kw), 'zz'),
                                    ('list', lambda **kw: ListGrader(answers=['a', 'b'], subgraders=StringGrader(), **kw), ['a', 'zz']),
-                                   ('singlelist', lambda **kw: SingleListGrader(answers=['a', 'b'], subgrader=StringGrader(), **kw), 'a, b')]:
+                                   ('singlelist', lambda **kw: SingleListGrader(answers=['a', 'b'], subgrader=StringGrader(), **kw), 'a, b'),
+                                   # graders that take no expected answer at all (accept_any / accept_nonempty) get the attempt number like any other
+                                   ('accept-any', lambda **kw: StringGrader(accept_any=True, **kw), 'anything at all'), ('accept-nonempty', lambda **kw: StringGrader(accept_nonempty=True, min_length=3, **kw), 'abcd')]:
                 g = mk(attempt_based_credit=sched, attempt_based_credit_msg=True, debug=True)
                 try:
                     r = with_alarm(lambda: g(None, inp, attempt=attempt), 10)
